@@ -241,6 +241,20 @@ void World::run_atomic()
         }
     }
     size_t n_f4 = positions.size() - n_f1 - n_f3 - n_f2;
+    // F9: at every statement boundary the second party takes a write lock on m.db (1.x: or p.db) and keeps it
+    for (int k = 0; k < K; ++k)
+        for (int role : {FR_MDB, FR_PDB})
+        {
+            if (role == FR_PDB && v2)
+                continue;
+            FaultSpec f;
+            f.kind = FK_LOCK;
+            f.pos = k;
+            f.role = role;
+            positions.push_back(f);
+        }
+    size_t n_f9 = positions.size() - n_f1 - n_f3 - n_f2 - n_f4;
+    enumj.set("f9_positions", (long long)n_f9);
     enumj.set("f1_positions", (long long)n_f1);
     enumj.set("f1_exhaustive", true);
     enumj.set("f3_positions", (long long)n_f3);
@@ -299,7 +313,7 @@ void World::run_atomic()
             d.steps.back() = s;
             derived[viols[v].key] = d.to_json();
         }
-        bool committed_anyway = last_call.valid && last_call.threw && f.kind != FK_STMT &&
+        bool committed_anyway = last_call.valid && last_call.threw && (f.kind == FK_TICK || f.kind == FK_VFS || f.kind == FK_MALLOC) &&
                                 have_prev && prev.hash() == hash_post && hash_post != hash_S;
         if (committed_anyway)
             probes.hit("atomic_threw_but_committed");
@@ -385,6 +399,7 @@ std::string fault_site(const FaultSpec& f)
         case FK_STMT: return "F1";
         case FK_TICK: return "F2";
         case FK_MALLOC: return "F4";
+        case FK_LOCK: return std::string("F9:lock-held:") + file_role_name(f.role);
         case FK_VFS:
             return std::string("F3:") + vfs_method_name(f.method) + ":" + file_role_name(f.role);
         default: return "none";
